@@ -283,8 +283,8 @@ def _quoted(s, q, n, quote, lang):
             continue
         if ch == quote:
             return k + 1
-        if ch in '\r\n':
-            return k
+        if ch in '\r\n' and not (lang == 'D' and quote == '"'):
+            return k           # (D string literals may span lines)
         k += 1
     return n
 
